@@ -84,6 +84,25 @@ Theorem C12_connect : forall offs sizes c e,
 Proof. exact connect_spec. Qed.
 Print Assumptions C12_connect.
 
+(* a comment naming PROTEIN together with DNA or RNA: every letter goes through the DNA, RNA, amino-acid tables in this
+   order -- a function of the keywords and the letter alone, so of nothing read earlier; with one keyword it is the
+   single-table translation above *)
+Theorem C12_mixed_keywords_precedence : forall k c x,
+  one_letter_mix k c = Some x <->
+  (k_dna k = true /\ one_letter DNA c = Some x) \/
+  ((k_dna k = false \/ one_letter DNA c = None) /\ k_rna k = true /\ one_letter RNA c = Some x) \/
+  ((k_dna k = false \/ one_letter DNA c = None) /\ (k_rna k = false \/ one_letter RNA c = None) /\ k_aa k = true /\ one_letter AA c = Some x).
+Proof. exact one_letter_mix_precedence. Qed.
+Print Assumptions C12_mixed_keywords_precedence.
+
+Theorem C12_single_keyword : forall a lines, parse_plain_mix (kinds_of a) lines = parse_plain a lines.
+Proof. exact parse_plain_mix_single. Qed.
+Print Assumptions C12_single_keyword.
+
+Example C12_mixed_nonvacuous :
+  parse_plain_mix {| k_dna := true; k_rna := false; k_aa := true |} ["MAG"%string; "T"%string] = Some (linear ["MET5"; "DA"; "DG"; "DT3"]%string).
+Proof. exact ex_mixed_header. Qed.
+
 Example C12_nonvacuous :
   parse_ig DNA true ["ACG"%string; "T"%string] = Some {| g_names := ["DA"; "DC"; "DG"; "DT"]%string; g_edges := [(0, 1, false); (1, 2, false); (2, 3, false); (0, 3, true)] |}
   /\ parse_plain RNA ["AT"%string; "G"%string] = Some (linear ["A5"; "U"; "G3"]%string)
